@@ -13,6 +13,13 @@ CLAIMED = {
     'C03': ('Bounded model checking of readUnixTime/toAbsTime/comparisons/addX on symbolic integer-millisecond instants: every '
             'execution path for every instant of every year in the range is decided against a closed-form Gregorian oracle.',
             'DESIGN.md#c03', 'years 1970-2099 (quick) / 1970-2400 (thorough); integer milliseconds only', ''),
+    'C06': ('Bounded model checking of Dijkstra routing (run_routing_forward / shortest_distance / all_shortest_distances / prepare) with symbolic '
+            'edge weights and cut-off on exhaustively enumerated small multigraph topologies, against the minimum over all enumerated permitted walks.',
+            'DESIGN.md#c06', 'topologies: 1-3 edges on <=3 nodes exhaustively (thorough: + seeded 4-5 node graphs); weights in [0,1000]', ''),
+    'C07': ('Bounded model checking of shortest_path (forward + backward pass, geometry chaining) with symbolic weights on the same enumerated '
+            'multigraphs with concrete multi-vertex edge geometries; node list, edge permission, weight sum == minimum and geometry continuity asserted per path; '
+            'every query is issued twice on the same network object.',
+            'DESIGN.md#c07', 'same bounds as C06; source != target', ''),
 }
 
 NOT_YET = {}
